@@ -192,7 +192,7 @@ var claimEdits = []edit{
 	{"iat-future", func(m map[string]any, c *forgeCtx) { m["iat"] = kit.Epoch.Unix() + floorSec(c.now)/sec + 1000 }},
 	{"payload-illtyped", func(m map[string]any, c *forgeCtx) {
 		switch c.ptype {
-		case "principal":
+		case "principal", "altprincipal":
 			m["Login"] = 5
 		case "blob":
 			m["Workspace"] = "one"
@@ -266,6 +266,12 @@ func genForge(r *kit.Rng) (*forgeSpec, valSpec) {
 	}
 	b, _ := json.Marshal(m)
 	f.Claims = string(b)
+	if r.Chance(1, 15) { // the caller wipes the buffer it constructed the signer from; the token is signed with what the buffer holds then, or with the secret
+		v.Key = r.Intn(2)
+		v.Wipe = true
+		f.Sign = kit.Pick(r, []string{fmt.Sprintf("k%d", zeroSecret), fmt.Sprintf("k%d", zeroSecret), fmt.Sprintf("k%d", v.Key)})
+		return f, v
+	}
 	switch r.Intn(12) {
 	case 0, 1, 2:
 		f.Header = kit.Pick(r, headers)
@@ -352,7 +358,31 @@ func emit(cs *caseSpec, out *kit.Out) error {
 	return nil
 }
 
+// The claims a token carries are the payload's JSON fields plus the reserved ones, which win; on the
+// way back encoding/json matches field names case-insensitively. The payload equality C14 claims
+// therefore needs payload types without a field that collides with a reserved claim: checked here
+// for the payload types of itokens-payloads on every run.
+func checkReservedNames() error {
+	reserved := []string{"aud", "exp", "iat", "nbf", "iss", "sub", "jti", "Duration", "AppQName", "IssuedAt"}
+	for _, pt := range []string{"principal", "blob", "verified", "verification"} {
+		b, _ := json.Marshal(newPayload(pt))
+		m := map[string]any{}
+		_ = json.Unmarshal(b, &m)
+		for k := range m {
+			for _, rsv := range reserved {
+				if strings.EqualFold(k, rsv) {
+					return fmt.Errorf("payload type %s has field %q, which collides with the reserved claim %q: its value would not survive IssueToken/ValidateToken", audOf(pt), k, rsv)
+				}
+			}
+		}
+	}
+	return nil
+}
+
 func Generate(seed uint64, n int, tier string, corpusDir string, out *kit.Out) error {
+	if err := checkReservedNames(); err != nil {
+		return err
+	}
 	if corpusDir != "" {
 		entries, _ := os.ReadDir(corpusDir)
 		var names []string
